@@ -79,7 +79,7 @@ def shards(tier):
 
 def floors(tier):
     return {"cases": 20000, "insertions": 20000, "insertions_depth2plus": 1000, "would_fail_values": 8000,
-            "next_to_ref": 1000, "base_uri_cases": 100, "own_id_next_to_ref": 100, "foreign_sibling_matrix_cases": 50000, "root_ref_cases": 500, "embedded_lookalike_cases": 2000, "empty_or_hash_ref_cases": 1000, "cross_document_chain_cases": 5000, "deep_foreign_value_cases": 1000, "foreign_names_spelled_like_escaped_tokens": 1500, "cases_with_errors": 5000, "foreign_names_used": 150,
+            "next_to_ref": 1000, "base_uri_cases": 100, "own_id_next_to_ref": 100, "foreign_sibling_matrix_cases": 50000, "root_ref_cases": 500, "embedded_lookalike_cases": 2000, "empty_or_hash_ref_cases": 1000, "cross_document_chain_cases": 5000, "deep_foreign_value_cases": 1000, "warnings_compared": 20000, "foreign_names_spelled_like_escaped_tokens": 1500, "cases_with_errors": 5000, "foreign_names_used": 150,
             "foreign_id_in_store_document_cases": 100, "check_schema_compared": 5000, "many_foreign_member_cases": 100, "module_validate_with_foreign_dollar_schema": 5000}
 
 
@@ -215,11 +215,35 @@ def own_id_next_to_ref(ctx, d, rng, S, insts):
         compare(ctx, d, S, S2, log, inst, mech=OWN_ID_MECH)
 
 
+def warnings_of(d, schema, inst, resolver=None):
+    """What the warnings machinery is told while the schema is used (whatever the process's filters do with it: a program run
+    with -W error turns each of these into an exception)."""
+    import warnings
+    cls = impl.CLS[d]
+    with warnings.catch_warnings(record=True) as w:
+        warnings.simplefilter("always")
+        try:
+            v = cls(schema, resolver=resolver) if resolver is not None else cls(schema)
+            list(v.iter_errors(inst))
+            v.is_valid(inst)
+        except Exception:
+            pass
+    return sorted({(x.category.__name__, str(x.message)[:100]) for x in w})
+
+
 def compare(ctx, d, S, S2, log, inst, resolver_factory=None, mech=None):
     r0 = resolver_factory(S) if resolver_factory else None
     r1 = resolver_factory(S2) if resolver_factory else None
     st0, f0 = errors_of(d, S, inst, r0)
     st1, f1 = errors_of(d, S2, inst, r1)
+    if ctx.counters.get("cases", 0) % 4 == 0 and not st0.startswith("exc:"):
+        w0 = warnings_of(d, S, inst, resolver_factory(S) if resolver_factory else None)
+        w1 = warnings_of(d, S2, inst, resolver_factory(S2) if resolver_factory else None)
+        ctx.count("warnings_compared")
+        if [x for x in w1 if x not in w0]:
+            ctx.violation("warning-added", {"draft": d, "schema": S, "schema_with_insertions": S2, "insertions": log, "instance": inst},
+                          "with the insertions the library warns %r (without: %r)" % ([x for x in w1 if x not in w0][:2], w0[:2]), mech=mech)
+            return
     if st0.startswith("exc:"):
         ctx.count("skipped_exception_delegated_to_C03")
         return
